@@ -1,12 +1,19 @@
 #!/bin/bash
-# usage: try_mutation.sh <patch.diff> <property> [extra simcheck args]  — apply to /repo, run quick check, undo.
+# usage: try_mutation.sh <patch.diff> <property> [extra simcheck args]
+# Applies the patch to a scratch worktree of /repo's HEAD (never to /repo itself), builds the harness against that
+# tree into a separate build directory and runs the property's quick check there. Evidence of these runs goes to a
+# scratch file, never to /verif/evidence.
 set -u
 patch=$1; prop=$2; shift 2
-cd /repo || exit 9
-if ! git diff --quiet; then echo "repo dirty"; exit 9; fi
-git apply "$patch" || { echo "patch does not apply"; exit 9; }
-cd /verif && ./check "$prop" --tier quick "$@"
+wt=/tmp/mut/try_wt
+variant=asan; [ "$prop" = C36 ] && variant=tsan
+mkdir -p /tmp/mut
+if [ ! -d $wt ]; then git -C /repo worktree add -q --detach $wt HEAD || exit 9; fi
+git -C $wt checkout -q -- . && git -C $wt checkout -q --detach $(git -C /repo rev-parse HEAD) || exit 9
+git -C $wt apply "$patch" || { echo "patch does not apply"; exit 9; }
+cd /verif && make -s -j16 REPO=$wt VARIANT=$variant B=.build/try-$variant 2>&1 | grep -E "error|Error" | head
+./.build/try-$variant/simcheck "$prop" --tier quick --evidence /tmp/mut/try_evidence.json "$@"
 rc=$?
-git -C /repo checkout -- .
+git -C $wt checkout -q -- .
 echo "try_mutation: exit $rc"
 exit $rc
